@@ -10,6 +10,7 @@ from bibtexparser.middlewares.names import (
 )
 from bibtexparser.model import Entry, Field, MiddlewareErrorBlock
 
+from .. import leak
 from .. import refs_names as R
 from ..canon import canon
 from ..engine import seq_iter, seq_shards
@@ -60,7 +61,7 @@ def shards(tier):
     out = [("seq", s) for s in seq_shards(SIGMA, 5 if tier == "quick" else 6)]
     # deeper over words and the main separators only: up to 4 (quick) / 5 (thorough) words in every case pattern
     out += [("words", s) for s in seq_shards(SIGMA_WORDS, 7 if tier == "quick" else 8, min_len=6 if tier == "quick" else 7, prefix_len=3)]
-    out += [("mw", 0), ("mw", 1)]
+    out += [("mw", 0), ("mw", 1), ("leak", 0)]
     return out
 
 
@@ -273,6 +274,15 @@ def run_shard(shard, tier, acc):
     elif kind == "words":
         for toks in seq_iter(SIGMA_WORDS, shard[1]):
             check_name("".join(toks), acc, toks)
+    elif kind == "leak":
+        names = ["AA bb CC", "bb CC, AA", "AA {BB", "Knuth, Jr, Donald", "AA, BB, CC, DD", "{cc} dd EE ff", "AA", "", "AA,", "1b AA bb CC dd"]
+        lists = [[a, b] for a in names for b in names]
+        inputs = [(lambda l=l: Library([Entry("a", "k", [Field("author", list(l)), Field("editor", [l[1]]), Field("t", "x")])])) for l in lists]
+        for ip in (True, False):
+            leak.run(lambda: SplitNameParts(allow_inplace_modification=ip), inputs, acc, f"SplitNameParts({ip})", case_of=lambda i: lists[i])
+        strs = [" and ".join(l) for l in lists]
+        inputs = [(lambda v=v: Library([Entry("a", "k", [Field("author", v), Field("t", v)])])) for v in strs]
+        leak.run(lambda: SeparateCoAuthors(allow_inplace_modification=False), inputs, acc, "SeparateCoAuthors", case_of=lambda i: strs[i])
     else:
         check_middleware(shard[1], acc)
 
